@@ -17,22 +17,27 @@ def _alarm(signum, frame):
     raise _Timeout()
 
 
-def evaluate(case, timeout=20):
-    """Execute a deep copy of the case.  Returns (report | None, executed
-    copy)."""
+def _eval_child(case):
     c = copy.deepcopy(case)
-    old = signal.signal(signal.SIGALRM, _alarm)
-    signal.alarm(timeout)
+    rep = execu.execute_case(c)
+    keep = {'violations': rep['violations'], 'calls': rep['calls'],
+            'trace_digest': rep['trace_digest']}
+    return keep, c
+
+
+def evaluate(case, timeout=20):
+    """Execute a copy of the case in a forked child (pristine library state,
+    like every run of the batch).  Returns (report | None, executed copy)."""
+    from sim import runner
+    from sim.env import install
+    install()
     try:
-        rep = execu.execute_case(c)
-    except _Timeout:
-        rep = None
-    except Exception:   # noqa: harness error on a mangled case
-        rep = None
-    finally:
-        signal.alarm(0)
-        signal.signal(signal.SIGALRM, old)
-    return rep, c
+        res = runner.run_isolated(_eval_child, (case,), timeout=timeout)
+    except runner._RunTimeout:
+        return None, case
+    if isinstance(res, dict):      # harness error in the child
+        return None, case
+    return res
 
 
 def has_sig(rep, prop, sig):
